@@ -35,7 +35,7 @@ from __future__ import annotations
 
 import time
 
-from .. import core, hbfs, vt
+from .. import core, hbfs, refcount_ilv, vt
 
 PROPERTY = "C24"
 LEVEL = "model_checking"
@@ -43,7 +43,7 @@ META = {
     "engine": "hbfs",
     "technique": "explicit-state BFS over subscribe/unsubscribe/connect/disconnect/time histories of real connectable observables "
     "on virtual time, heap-canonical de-duplication, judged after every event by a reference model of connection intervals and "
-    "subject deliveries",
+    "subject deliveries; plus stateless exhaustive exploration of thread interleavings (bounded preemptions) of subscribers coming and going on two threads of one share()d observable",
     "text": "for every multicast kind (publish, multicast(subject), replay(n) with and without scheduler, publish_value, share, "
     "ref_count over publish/replay/publish_value, auto_connect(0..N), multicast/publish/replay/publish_value with factory+mapper "
     "using the connectable once or twice) x {cold, hot} source x timeline, ALL histories up to the depth bound over the event menu "
@@ -740,9 +740,16 @@ def run(ctx: core.Ctx):
     ctx.cov["traces_validated_against_impl"] = part.counters.get("transitions", 0)
     ctx.cov["merged_transitions"] = part.counters.get("merges", 0)
     ctx.cov["max_depth"] = max([int(k.split(":")[1]) for k in part.counters if k.startswith("depth_reached:")] or [0])
+    refcount_ilv.run_part(ctx)  # E3: subscribers coming and going on two threads
+    ex = ctx.cov["e3_threads"]["schedules_explored"]
+    ctx.cov["states"] += ex
+    ctx.cov["transitions"] += ctx.cov["e3_threads"]["schedule_points"]
+    ctx.cov["traces_validated_against_impl"] += ex
 
 
 def replay(case):
+    if isinstance(case, dict) and str(case.get("harness", "")).startswith("refcount-threads|"):
+        return refcount_ilv.replay(case)
     cfg = case["config"]
     cfg["kind"] = list(cfg["kind"])
     hist = [tuple(e) for e in case["history"]]
